@@ -104,6 +104,9 @@ def packed(ctx, crate):
         e = Engine(crate, opaque={pack, "nested::bmoc::BMOC::create_unsafe", "nested::bmoc::BMOCBuilderUnsafe::to_lower_depth"}); r = e.run(fin); ctx.functions |= e.visited_fns
         pk = [ev for ev in e.events.values() if ev.callee == pack]
         cu = [ev for ev in e.events.values() if ev.callee == "nested::bmoc::BMOC::create_unsafe"]
+        # the constructor call whose result is returned (a finaliser may go through its sibling and rebuild)
+        rets = e.phi_ops.get(r.ret, {r.ret}) if r.returns else set()
+        cu = [ev for ev in cu if ev.ret in rets] or cu
         ok = len(pk) == 1 and len(cu) == 1
         if ok:
             # entries given to create_unsafe derive from pack's result
